@@ -155,6 +155,12 @@ def run(tier):
     rep.analysed["producers"] = [p.replace("lalrpop::lr1::", "") for p in producers]
     rep.floor("producers of Ok(states)", len(producers), 3)
 
+    # ---- construction coverage (shared with C01): the work list visits states appended during resolution, the LALR
+    #      collapse merges every canonical state (unresolved / unmerged states carry wrong lookahead => spurious
+    #      acceptance or spurious conflicts)
+    from .c01 import construction_coverage
+    construction_coverage(rep, f)
+
     # ---- (b) emit_recursive_ascent
     era = f.one(r"^lalrpop::build::emit_recursive_ascent$")
     rel = era.relfile()
